@@ -137,6 +137,10 @@ func (w *World) Init(s *kernel.Sim) {
 	p.SlowReads = t.Chance(1, 3)
 	p.MaxOps = t.Range(4, 28)
 	p.Conc = t.Range(1, 4)
+	if kernel.Thorough() {
+		p.MaxOps = t.Range(4, 70)
+		p.Conc = t.Range(1, 6)
+	}
 	p.MaxGet = []int64{1000, 1, 2, 3, 7, 10, 1 << 31, math.MaxInt64}[t.Intn(8)]
 	p.Align = !t.Chance(1, 3)
 	p.SeqWeight = t.Range(1, 6)
